@@ -50,6 +50,10 @@ pub struct Case {
     /// a set-id program - AT_UID/AT_GID (real) then differ from AT_EUID/AT_EGID
     #[serde(default)]
     pub egid: Option<u32>,
+    /// the probe runs in a time namespace of its own in which CLOCK_MONOTONIC and CLOCK_BOOTTIME are ahead by
+    /// these (different) numbers of seconds (only where the driver may create one)
+    #[serde(default)]
+    pub timens: Option<(u32, u32)>,
 }
 
 /// Names the environment is built from: several are proper prefixes of others, some are not UTF-8,
@@ -213,13 +217,14 @@ pub fn startup_case(thorough: bool) -> impl Strategy<Value = Case> {
     );
     let envp = prop_oneof![1 => prop::collection::vec(entry(), 0..=0), 6 => prop::collection::vec(entry(), 1..=8), 3 => prop::collection::vec(entry(), 9..=40)];
     let ids = prop_oneof![1 => Just(None), 2 => (1000u32..70_000, 1000u32..70_000).prop_map(Some), 1 => (any::<u32>(), any::<u32>()).prop_map(|(u, g)| Some((u.clamp(1, u32::MAX - 2), g.clamp(1, u32::MAX - 2))))];
-    (argv, envp, prop::collection::vec(key_spec(), 1..=8), builds(thorough, 3), ids, prop::option::weighted(0.5, 100u32..60_000)).prop_map(|(argv, envp, specs, builds, ids, egid)| {
+    (argv, envp, prop::collection::vec(key_spec(), 1..=8), builds(thorough, 3), ids, prop::option::weighted(0.5, 100u32..60_000), prop::option::weighted(0.35, (1u32..2_000_000, 1u32..2_000_000))).prop_map(|(argv, envp, specs, builds, ids, egid, timens)| {
         let keys = specs.iter().map(|s| BStr(resolve_key(s, &envp))).collect();
         let egid = match (ids, egid) {
             (Some((_, g)), Some(e)) => Some(if e == g { e + 1 } else { e }),
             _ => None,
         };
-        Case { argv, envp: envp.into_iter().map(BStr).collect(), keys, builds, ids, egid }
+        let timens = timens.map(|(m, b)| if m == b { (m, b + 977) } else { (m, b) });
+        Case { argv, envp: envp.into_iter().map(BStr).collect(), keys, builds, ids, egid, timens }
     })
 }
 
@@ -234,6 +239,6 @@ pub fn lookup_case(thorough: bool) -> impl Strategy<Value = Case> {
             }
         }
         let keys = specs.iter().map(|s| BStr(resolve_key(s, &envp))).collect();
-        Case { argv: vec![Arg::B(BStr(b"probe-env".to_vec()))], envp: envp.into_iter().map(BStr).collect(), keys, builds, ids: None, egid: None }
+        Case { argv: vec![Arg::B(BStr(b"probe-env".to_vec()))], envp: envp.into_iter().map(BStr).collect(), keys, builds, ids: None, egid: None, timens: None }
     })
 }
